@@ -125,10 +125,12 @@ class Report:
                 matched.append((r, hit))
             else:
                 new.append(r)
-        os.makedirs(os.path.join(EVIDENCE_DIR, "violations"), exist_ok=True)
-        # remove stale violation files of this property
+        dry = getattr(self, "dry", False)
         vdir = os.path.join(EVIDENCE_DIR, "violations")
-        for f in os.listdir(vdir):
+        if not dry:
+            os.makedirs(vdir, exist_ok=True)
+        # remove stale violation files of this property
+        for f in (os.listdir(vdir) if not dry else []):
             if f.startswith(self.pid + "-"):
                 try:
                     os.remove(os.path.join(vdir, f))
@@ -141,8 +143,9 @@ class Report:
         vpaths = []
         for k, r in enumerate(new):
             p = os.path.join(vdir, f"{self.pid}-{k}.json")
-            with open(p, "w") as fh:
-                json.dump(dict(r, property=self.pid, tier=self.tier), fh, indent=1)
+            if not dry:
+                with open(p, "w") as fh:
+                    json.dump(dict(r, property=self.pid, tier=self.tier), fh, indent=1)
             vpaths.append(p)
             lines.append(f"VIOLATION property={self.pid} replay={p}")
             lines.append(f"  {r['where']} {r['function']} rule={r['rule']}: {r['reason']}")
@@ -191,9 +194,10 @@ class Report:
             "violations": len(new),
         }
         evidence["coverage"].update(self.extra)
-        os.makedirs(EVIDENCE_DIR, exist_ok=True)
-        with open(os.path.join(EVIDENCE_DIR, f"{self.pid}.json"), "w") as fh:
-            json.dump(evidence, fh, indent=1, default=str)
+        if not dry:
+            os.makedirs(EVIDENCE_DIR, exist_ok=True)
+            with open(os.path.join(EVIDENCE_DIR, f"{self.pid}.json"), "w") as fh:
+                json.dump(evidence, fh, indent=1, default=str)
         for ln in lines:
             print(ln)
         if self.errors:
